@@ -8,8 +8,6 @@ use std::{borrow::Cow, vec::Vec};
 ///
 /// The common practise is to use the function `to_lossy_string` to convert to a standard Rust
 /// String.
-use itertools::Itertools;
-
 use super::control::ControlCharacter;
 
 const DEFAULT_CODEPAGE: char = 'L';
@@ -110,7 +108,8 @@ pub fn to_lossy_bytes(input: &str) -> Cow<[u8]> {
                     current_encoding = encoding;
                 }
             }
-            after_control = c.is_lfs_control_char();
+            // an escaped caret (^^) is a pair: its second half does not introduce a marker
+            after_control = !after_control && c.is_lfs_control_char();
 
             output.push(c as u8);
             continue;
@@ -172,6 +171,20 @@ pub fn to_lossy_bytes(input: &str) -> Cow<[u8]> {
     output.into()
 }
 
+/// Is this byte the first half of a two byte character in this codepage?
+fn is_double_byte_lead(encoding: &'static encoding_rs::Encoding, byte: u8) -> bool {
+    if encoding == encoding_rs::SHIFT_JIS {
+        matches!(byte, 0x81..=0x9F | 0xE0..=0xFC)
+    } else if encoding == encoding_rs::BIG5
+        || encoding == encoding_rs::GBK
+        || encoding == encoding_rs::EUC_KR
+    {
+        matches!(byte, 0x81..=0xFE)
+    } else {
+        false
+    }
+}
+
 /// Convert a InsimString into a native rust String, with potential lossy conversion from codepages
 /// Assumes any \0 characters have been stripped ahead of time
 pub fn to_lossy_string(input: &[u8]) -> Cow<str> {
@@ -180,17 +193,35 @@ pub fn to_lossy_string(input: &[u8]) -> Cow<str> {
         return "".into();
     }
 
-    // find the positions in the input for each ^L, ^B...
-    let mut indices: Vec<usize> = input
-        .iter()
-        .tuple_windows()
-        .positions(|(elem, next)| elem.is_lfs_control_char() && next.is_lfs_codepage())
-        .collect();
-
     // allowing unwrap because if this panics we're screwed
     let default_lfs_codepage = DEFAULT_CODEPAGE
         .as_lfs_codepage()
         .unwrap_or_else(|| unreachable!());
+
+    // find the positions in the input for each ^L, ^B..., reading left to right the way LFS does:
+    // an escaped caret (^^) is a pair, and so is a double byte character, whose second byte may
+    // itself be 0x5E (^) and must not be taken for the start of a marker
+    let mut indices: Vec<usize> = Vec::new();
+    let mut current = default_lfs_codepage;
+    let mut i = 0;
+    while i + 1 < input.len() {
+        let (elem, next) = (input[i], input[i + 1]);
+        if elem.is_lfs_control_char() {
+            if let Some(encoding) = next.as_lfs_codepage() {
+                indices.push(i);
+                current = encoding;
+                i += 2;
+            } else if next.is_lfs_control_char() {
+                i += 2;
+            } else {
+                i += 1;
+            }
+        } else if is_double_byte_lead(current, elem) {
+            i += 2;
+        } else {
+            i += 1;
+        }
+    }
 
     if indices.is_empty() {
         // no mappings at all, just encode it all as the default
